@@ -186,7 +186,19 @@ def _perform(inst, kind, call, keep=None):
             m = build_module(call["module"])
         except Exception as e:  # noqa: BLE001
             return ("module-build-failed", type(e).__name__)
-        o = core.guarded(lambda: inst.encode(m), 4000)
+        via = call.get("via")
+        if via == "dumps":
+            o = core.guarded(lambda: pvl.dumps(m, encoder=inst), 4000)
+        elif via == "dump":
+            import io
+
+            def to_stream():
+                f = io.StringIO()
+                pvl.dump(m, f, encoder=inst)
+                return f.getvalue()
+            o = core.guarded(to_stream, 4000)
+        else:
+            o = core.guarded(lambda: inst.encode(m), 4000)
         return describe_outcome(o)
     if r == "decoder":
         fn = call.get("fn", "decode")
@@ -369,6 +381,9 @@ class C16(Property):
                     stmts, toks, text, style = gen.render_doc(
                         rng, "default", max_stmts=rng.choice([1, 2, 4]))
                     calls.append({"module": {"text": text}})
+                if rng.random() < 0.3:
+                    # the instance handed to the library's own entry points
+                    calls[-1]["via"] = rng.choice(["dumps", "dump"])
             else:
                 fn = rng.choice(["decode", "decode", "decode_simple_value",
                                  "decode_datetime", "decode_decimal",
